@@ -1,4 +1,7 @@
+import FrappyModel.Generated.C08
 import FrappyModel.Generated.C20
+import FrappyModel.Node.Activate
 import FrappyModel.Node.Logging
 import FrappyModel.Small.Rotate
+import FrappyModel.Spec.C08
 import FrappyModel.Spec.C20
